@@ -127,6 +127,11 @@ func (p *PolicySet) UnmarshalJSON(b []byte) error {
 	if err := json.Unmarshal(b, &jsonPolicySet); err != nil {
 		return err
 	}
+	for k, v := range jsonPolicySet.StaticPolicies {
+		if v == nil {
+			return fmt.Errorf("policy %q is null", k)
+		}
+	}
 	*p = PolicySet{
 		policies: make(PolicyMap, len(jsonPolicySet.StaticPolicies)),
 	}
